@@ -326,6 +326,7 @@ Section RunP.
   Notation one_batch := (one_batch Param Series LossV model lossf loss_leb rounds0 propose draws agent_actions plan).
   Notation batches := (batches Param Series LossV model lossf loss_leb rounds0 propose draws agent_actions plan).
   Notation calibrate := (calibrate Param Series LossV model lossf loss_leb rounds0 propose draws agent_actions plan).
+  Notation calibrate_pos := (calibrate_pos Param Series LossV model lossf loss_leb rounds0 propose draws agent_actions plan).
   Notation step := (step Param Series LossV model lossf loss_leb rounds0 propose draws agent_actions plan).
   Notation run := (Calibrator.run Param Series LossV model lossf loss_leb rounds0 propose draws agent_actions plan).
   Notation InvS := (InvS Param Series LossV model lossf draws).
@@ -362,9 +363,9 @@ Section RunP.
       destruct o1; try (injection H as <- <-; exact Hx1). eapply IH; eauto.
   Qed.
 
-  Lemma calibrate_diskext E0 n s s' e r : InvS E0 s -> DiskExt s -> calibrate n s = (s', e, r) -> DiskExt s'.
+  Lemma calibrate_pos_diskext E0 n s s' e r : InvS E0 s -> DiskExt s -> calibrate_pos n s = (s', e, r) -> DiskExt s'.
   Proof.
-    intros Hi Hx H. destruct Hi as [Hl Hd]. unfold Calibrator.calibrate in H.
+    intros Hi Hx H. destruct Hi as [Hl Hd]. unfold Calibrator.calibrate_pos in H.
     set (c1 := if Nat.eqb _ 0 then _ else _) in H.
     assert (Hc1 : Inv E0 c1) by (unfold c1; destruct (Nat.eqb _ 0); [now apply Inv_seeds | exact Hl]).
     assert (Hr1 : records (live _ _ _ s) = records c1) by (unfold c1; destruct (Nat.eqb _ 0); reflexivity).
@@ -384,6 +385,12 @@ Section RunP.
       all: cbv zeta in H; destruct (end_session _ _) as [sc'|e2]; injection H as <- <- <-; [eapply diskext_same; eauto | exact Hx1]. }
     injection H as <- <- <-. eapply diskext_same; eauto.
   Qed.
+
+  Lemma calibrate_diskext E0 n s s' e r : InvS E0 s -> DiskExt s -> calibrate n s = (s', e, r) -> DiskExt s'.
+  Proof. intros Hi Hx H. rewrite (calibrate_unfold Param Series LossV) in H. destruct n; [|eapply calibrate_pos_diskext; eauto].
+    destruct (calibrate_pos 0 s) as [[s1 e1] r1] eqn:E. pose proof (calibrate_pos_diskext _ _ _ _ _ _ Hi Hx E) as Hx1.
+    apply (zero_ckpt_cases Param Series LossV) in H. destruct H as [(-> & _ & _) | [(_ & Hlive & Hdisk & _) | (_ & -> & _)]]; auto.
+    intros d Hd'. rewrite Hdisk in Hd'. injection Hd' as <-. rewrite Hlive. apply records_extends. reflexivity. Qed.
 
   Lemma step_diskext E0 s o s' e r : InvS E0 s -> DiskExt s -> step s o = (s', e, r) -> DiskExt s'.
   Proof.
@@ -470,7 +477,7 @@ Section RunP.
   Theorem calibrate_leaves_current_checkpoint n s s' ret :
     c_saving (cfg _ _ _ (live _ _ _ s)) = true -> calibrate (S n) s = (s', None, ret) -> disk _ _ _ s' = Some (live _ _ _ s').
   Proof.
-    intros Hsav H. unfold Calibrator.calibrate in H.
+    intros Hsav H. change (calibrate (S n) s) with (calibrate_pos (S n) s) in H. unfold Calibrator.calibrate_pos in H.
     set (c1 := if Nat.eqb _ 0 then _ else _) in H.
     assert (Hcfg1 : cfg _ _ _ c1 = cfg _ _ _ (live _ _ _ s)) by (unfold c1; destruct (Nat.eqb _ 0); reflexivity).
     destruct (start_session _ _) as [sc|e0]; [|discriminate].
@@ -592,16 +599,24 @@ Proof.
   split; [apply ex_wf|]. split; [vm_compute; reflexivity|]. split; [vm_compute; reflexivity|]. split; [vm_compute; discriminate | reflexivity].
 Qed.
 
-(* calibrate(0) on a freshly constructed calibrator with a saving folder returns normally, has reseeded the samplers
-   (the live state changed) and leaves the folder as it was (here: empty) - the finding calibrate-zero-no-checkpoint *)
-Definition ex_fresh_calibrator : cstate nat nat nat :=
-  mkSt nat nat nat (mkCore nat nat nat (mkCfg 1 None false true) [] [] [] [] [] 0 0 (RR nat [mkS 0 0 1 0 None] 0) 0 [(0, 0)] 0 0) None.
-Lemma calibrate_zero_checkpoint_refuted :
-  exists s s' ret, c_saving (cfg _ _ _ (live _ _ _ s)) = true /\
-    calibrate nat nat nat (fun p _ => p) (fun _ => 0) Nat.leb (fun _ _ => false) (fun _ _ _ => [0]) (fun _ => 7%Z) (fun _ => 0) NoFault 0 s
-      = (s', None, ret) /\
-    live _ _ _ s' <> live _ _ _ s /\ disk _ _ _ s' = None.
+(* calibrate(0) too leaves the folder holding the state it returns with (repair 32f0e7b; before it, calibrate(0) on a
+   fresh calibrator reseeded the samplers and left the folder untouched) *)
+Lemma calibrate_zero_leaves_current_checkpoint :
+  forall Param Series LossV model lossf loss_leb rounds0 propose draws agent_actions plan (s s' : cstate Param Series LossV) ret,
+    calibrate Param Series LossV model lossf loss_leb rounds0 propose draws agent_actions plan 0 s = (s', None, ret) ->
+    c_saving (cfg _ _ _ (live _ _ _ s')) = true -> disk _ _ _ s' = Some (live _ _ _ s').
 Proof.
-  exists ex_fresh_calibrator. eexists. eexists. split; [reflexivity|]. split; [vm_compute; reflexivity|].
-  split; [vm_compute; discriminate | reflexivity].
+  intros until ret. unfold calibrate. destruct (calibrate_pos _ _ _ _ _ _ _ _ _ _ _ 0 s) as [[s0 e0] r0].
+  unfold zero_ckpt. destruct e0 as [x|]; [intros H; inversion H|].
+  destruct (c_saving (cfg _ _ _ (live _ _ _ s0))) eqn:Hs.
+  - destruct (Calibrator.save _ _ _ (live _ _ _ s0)) as [d|] eqn:Hsave; intros H Hsv; inversion H; subst; clear H.
+    cbn. f_equal. unfold Calibrator.save in Hsave. destruct (sch _ _ _ (live _ _ _ s0)); congruence.
+  - intros H Hsv. inversion H; subst. congruence.
 Qed.
+
+Example calibrate_zero_example :
+  exists s' ret, calibrate nat nat nat (fun p _ => p) (fun _ => 0) Nat.leb (fun _ _ => false) (fun _ _ _ => [0]) (fun _ => 7%Z) (fun _ => 0) NoFault 0
+      (mkSt nat nat nat (mkCore nat nat nat (mkCfg 1 None false true) [] [] [] [] [] 0 0 (RR nat [mkS 0 0 1 0 None] 0) 0 [(0, 0)] 0 0) None)
+      = (s', None, ret) /\ disk _ _ _ s' = Some (live _ _ _ s') /\ rng_pos _ _ _ (live _ _ _ s') = 1.
+Proof. eexists. eexists. vm_compute. auto. Qed.
+
